@@ -1314,6 +1314,7 @@ class Sym:
         init_s = strip(init)
         if init_s[0] == "call" and short(init_s[1]) in ("Vec::<T>::new", "Vec::<T>::with_capacity"):
             pushed = []
+            sites = []
             tm = self.an.terms
             for bb, term in self.an.body.calls():
                 cs = short(term.get("callee") or "")
@@ -1323,8 +1324,70 @@ class Sym:
                         a0 = a0[1]
                     if a0[0] == "mut" and a0[1] == l:
                         pushed.append("%s %s" % (cs.split("::")[-1], self.arg_name(tm.operand(term["args"][1]))))
+                        sites.append((bb, term, cs))
+            if len(sites) == 1 and sites[0][2] == "Vec::<T, A>::push":
+                cm = self.push_loop_as_map(sites[0][0], sites[0][1])
+                if cm is not None:
+                    return cm
             return "vec[%s]" % "; ".join(sorted(pushed))
         return "mut(%s)" % self.name(init)
+
+    def push_loop_as_map(self, pbb, pterm):
+        """`let mut v = Vec::new(); for x in IT { v.push(f(x)) }` (one push, on every iteration of a loop over IT, the
+        pushed value a function of the loop's element) is `IT.map(|x| f(x)).collect()`: the same canonical name"""
+        body = self.an.body
+        loops = [(tl, hd, body.natural_loop(tl, hd)) for (tl, hd) in body.back_edges()]
+        inl = [x for x in loops if pbb in x[2]]
+        if not inl:
+            return None
+        tl, hd, lp = min(inl, key=lambda x: len(x[2]))
+        if not body.dominates(pbb, tl):
+            return None                      # a conditional push is a filter, not a map
+        nexts = [(bb, t) for bb, t in body.calls() if bb in lp and short(cname(t)) == "Iterator::next"
+                 and min([x for x in loops if bb in x[2]], key=lambda x: len(x[2]))[1] == hd]
+        if len(nexts) != 1:
+            return None
+        nbb, nt = nexts[0]
+        tm = self.an.terms
+        save = getattr(tm, "_pos", None)
+        try:
+            tm._pos = (nbb, "t")
+            ncall = tm.call_term(nt, nbb)
+            it = tm.operand(nt["args"][0])
+            tm._pos = (pbb, "t")
+            val = tm.operand(pterm["args"][1])
+        finally:
+            tm._pos = save
+        elem = ("field", ("downcast", ncall, "Some"), 0)
+
+        def sub(x):
+            if not isinstance(x, tuple) or not x or not isinstance(x[0], str):
+                return x
+            if strip(x) == elem or x == elem:
+                return ("carg", 0)
+            out = [x[0]]
+            for y in x[1:]:
+                if isinstance(y, tuple) and y and isinstance(y[0], str):
+                    out.append(sub(y))
+                elif isinstance(y, tuple):
+                    out.append(tuple(sub(z) if isinstance(z, tuple) else z for z in y))
+                else:
+                    out.append(y)
+            return tuple(out)
+        v2 = sub(val)
+        from .terms import walk as _walk
+        if not any(z == ("carg", 0) for z in _walk(v2)):
+            return None
+        # nothing else of the loop may feed the value (a running index, an accumulator)
+        if any(z[0] in ("var", "loopval") for z in _walk(v2)):
+            return None
+        src = unmut(it)
+        while src[0] == "call" and short(src[1]) == "IntoIterator::into_iter" and len(src[2]) == 1:
+            src = unmut(src[2][0])
+        try:
+            return "Iterator::collect(Iterator::map(%s,|x| %s))" % (self.arg_name(src), closure_pred_name(self, None, v2))
+        except Exception:
+            return None
 
     def arg_name(self, a):
         r = self.ev.region(a)
